@@ -1,13 +1,17 @@
 """C20 -- TeamCity output is a balanced, correctly escaped service-message stream.
-Scenario:  [ :opt <run-ignored 0|1> <passes> ] <dur> <nfilters> { <name> } <ntests> { <group> <name> <file> <line> <ignored> <nstmts> { :f <file> <line> <msg> | :x <file> <line> <msg> } }
-           (run-ignored = the registry-wide switch -ri (TestRegistry::setRunIgnored): ignored tests are run as normal tests;
+Scenario:  [ :con <sink 0|1|2> <verbosity 0|1|2> ] [ :opt <run-ignored 0|1> <passes> ] <dur> <nfilters> { <name> } <ntests> { <group> <name> <file> <line> <ignored> <nstmts> { :f <file> <line> <msg> | :x <file> <line> <msg> } }
+           (sink = where the stream is observed: 0 a subclass overriding printBuffer (test double), 1 the PlatformSpecificFPuts /
+           PlatformSpecificFlush seam under the real ConsoleTestOutput::printBuffer, 2 file descriptor 1 under the real platform
+           functions; verbosity 0 quiet, 1 -v, 2 -vv; without the prefix 0 0;
+           run-ignored = the registry-wide switch -ri (TestRegistry::setRunIgnored): ignored tests are run as normal tests;
            passes = number of runAllTests calls on the same registry and output (-r<n>); without the prefix: off, one pass;
            dur = milliseconds each running test takes on the scripted clock; filters = strict name filters (-sn), none = every test
            runs; :f = addFailure and continue, :x = fail() and leave the test; tests are registered in the order given; an ignored
            test has a body too: it is executed only under run-ignored)
            :raw <bytes>  -- parser differential only (no library code): the Coq parser's reading of the bytes is compared with
            the reading of the independent decoder below.
-Observation: <stream> <n> { <count> } -- everything TeamCityTestOutput handed to printBuffer; then per pass, per registered test, how
+           :rawv <bytes> -- the same for the message-anywhere reading (very verbose streams).
+Observation: <stream> <n> { <count> } -- everything that reached the sink; then per pass, per registered test, how
            often the test's body was executed in that pass.
 Judges: the extracted Coq `spec` (tc_parse + balance + faithfulness) and, independently, the Python decoder + property check here."""
 import re
@@ -71,9 +75,10 @@ def ser_stmt(st):
     return ":%s %s %x %s" % (st[0], tb(st[1]), st[2], tb(st[3]))
 
 
-def ser(dur, tests, filters=(), opts=(False, 1)):
+def ser(dur, tests, filters=(), opts=(False, 1), con=(0, 0)):
     ri, passes = opts
-    out = ([] if (not ri and passes == 1) else [":opt", "1" if ri else "0", "%x" % passes])
+    out = ([] if tuple(con) == (0, 0) else [":con", "%x" % con[0], "%x" % con[1]])
+    out += ([] if (not ri and passes == 1) else [":opt", "1" if ri else "0", "%x" % passes])
     out += ["%x" % dur, "%x" % len(filters)] + [tb(f) for f in filters] + ["%x" % len(tests)]
     for (g, n, f, l, ign, body) in tests:
         out += [tb(g), tb(n), tb(f), "%x" % l, "1" if ign else "0", "%x" % len(body)] + [ser_stmt(s) for s in body]
@@ -88,14 +93,32 @@ def is_raw(s):
     return s.startswith(":raw")
 
 
+def con_of(s):
+    """(sink, verbosity) of a scenario line"""
+    t = s.split(None, 3)
+    return (int(t[1], 16), int(t[2], 16)) if t and t[0] == ":con" else (0, 0)
+
+
+def with_con(s, con):
+    """the same run observed at another sink / with another verbosity"""
+    t = s.split()
+    if t and t[0] == ":con":
+        t = t[3:]
+    return " ".join(([] if tuple(con) == (0, 0) else [":con", "%x" % con[0], "%x" % con[1]]) + t)
+
+
 def opts_of(s):
     """(run-ignored, passes) of a scenario line"""
-    t = s.split()
+    t = s.split(None, 6)
+    if t and t[0] == ":con":
+        t = t[3:]
     return (t[1] != "0", int(t[2], 16)) if t and t[0] == ":opt" else (False, 1)
 
 
 def parse_scn(s):
     t = s.split()
+    if t and t[0] == ":con":
+        t = t[3:]
     if t and t[0] == ":opt":
         t = t[3:]
     dur = int(t[0], 16); nf = int(t[1], 16)
@@ -231,6 +254,94 @@ def gen_ri(rng, big=False):
     return ser(rng.choice([0, 1, 42]), tests, filters, opts)
 
 
+LONG_LENS = [0, 1, 2, 31, 32, 33, 62, 63, 64, 65, 100, 126, 127, 128, 129, 150, 180, 190, 200, 210, 220, 224, 225, 226, 230, 240, 250, 254, 255, 256,
+             257, 258, 300, 383, 384, 385, 500, 510, 511, 512, 513, 514, 600, 767, 768, 769, 1000, 1022, 1023, 1024, 1025, 1026, 1500, 2000, 2047,
+             2048, 2049, 3000, 4000, 4095, 4096, 4097, 4999, 5000]
+PLAIN = b"abcdefghijklmnopqrstuvwxyzABCXYZ0123456789_.:/ -#"
+
+
+def long_text(rng, n, style=None):
+    """n characters. plain: none needs escaping; dense: every one does; edges: the characters within 3 of every multiple of 64 of
+    (offset + shift) mostly need escaping (shift = length of whatever precedes the value in its line, unknown to the generator:
+    random); mixed: a tenth need escaping anywhere"""
+    style = style or rng.choice(["plain", "dense", "edges", "edges", "edges", "mixed", "mixed"])
+    shift = rng.randrange(0, 64)
+    out = bytearray()
+    for i in range(n):
+        near = (i + shift) % 64 in (61, 62, 63, 0, 1, 2)
+        p = {"plain": 0.0, "dense": 1.0, "mixed": 0.1}.get(style, 0.75 if near else 0.02)
+        out.append(rng.choice(SPECIAL) if rng.random() < p else rng.choice(PLAIN))
+    return bytes(out)
+
+
+def rand_con(rng, p_double=0.25, p_fd=0.3, p_v=0.1, p_vv=0.2):
+    c = rng.random()
+    sink = 0 if c < p_double else (2 if c < p_double + p_fd else 1)
+    c = rng.random()
+    return (sink, 2 if c < p_vv else (1 if c < p_vv + p_v else 0))
+
+
+def long_len(rng, cap=5000):
+    c = rng.random()
+    n = rng.choice(LONG_LENS) if c < 0.55 else (rng.randrange(150, 700) if c < 0.85 else rng.randrange(0, 5001))
+    return min(n, cap)
+
+
+def gen_long(rng, big=False):
+    """few tests; one or two of the values (group name, test name, test's file name, failure's file name, failure message) are long
+    (0..5000 characters, lengths at and next to the multiples of 64 / 128 / 256 / 512 / 1024, characters needing escaping around the
+    multiples of 64 of the line offset); observed mostly on the console path"""
+    tests = []
+    cap = 5000 if big else 2600
+    ngroups = rng.choice([1, 1, 1, 2])
+    which = rng.sample(["group", "name", "tfile", "ffile", "msg", "msg", "name"], rng.choice([1, 1, 2]))
+    L = lambda k, short: long_text(rng, long_len(rng, cap)) if k in which and rng.random() < 0.8 else short
+    for gi in range(ngroups):
+        g = L("group", plain(rng, 4) + bytes([65 + gi]))
+        for _ in range(rng.choice([1, 1, 2, 3])):
+            name = L("name", plain(rng, 5))
+            tfile = L("tfile", plain(rng, 5) + b".cpp")
+            line = rng.choice([1, 10, 100, 4242])
+            ign = rng.random() < 0.12
+            body = []
+            for _ in range(rng.choice([0, 1, 1, 1, 2, 3])):
+                ff = tfile if rng.random() < 0.5 else L("ffile", plain(rng, 5) + b".h")
+                body.append(("f" if rng.random() < 0.75 else "x", ff, rng.choice([0, line, line + 1, max(0, line - 1), 99999]), L("msg", text(rng, 20))))
+            tests.append((g, name, tfile, line, ign, body))
+    opts = (rng.random() < 0.15, rng.choice([1, 1, 1, 2]))
+    return ser(rng.choice([0, 7, 123456789]), tests, (), opts, rand_con(rng, 0.1, 0.3, 0.1, 0.3))
+
+
+def gen_many(rng, big=False):
+    """many messages in a row: many tests with medium names, tests with many failures, several groups"""
+    tests = []
+    ntests = rng.choice([20, 40, 60] if not big else [100, 200])
+    gsize = rng.choice([1, 5, 20, 1000])
+    width = rng.choice([3, 20, 60, 120])
+    for i in range(ntests):
+        g = b"G%d" % (i // gsize)
+        name = long_text(rng, rng.randrange(0, width + 1), "mixed") + b"%d" % i
+        body = [("f", b"f.cpp", 7, long_text(rng, rng.randrange(0, width + 1), "edges")) for _ in range(rng.choice([0, 0, 0, 1, 2, 25] if i % 7 == 0 else [0, 0, 1]))]
+        tests.append((g, name, b"f.cpp", 5, rng.random() < 0.1, body))
+    return ser(rng.choice([0, 3]), tests, (), (False, rng.choice([1, 1, 2])), rand_con(rng, 0.1, 0.3, 0.1, 0.3))
+
+
+def long_grid():
+    """every value position x the lengths at which a line of the stream crosses 256 / 512 / 1024 bytes, plain and fully escaped, quiet and
+    very verbose, on the platform seam and on file descriptor 1"""
+    out = []
+    for n in (100, 200, 221, 224, 225, 226, 229, 230, 256, 480, 481, 482, 512, 1000, 1024, 5000):
+        for style in ("plain", "dense"):
+            v = (b"a" if style == "plain" else b"'|[]\r\n") * n
+            v = v[:n]
+            for field in range(5):
+                w = [b"G", b"t", b"a.cpp", b"b.h", b"msg"]
+                w[field] = v
+                tests = [(w[0], w[1], w[2], 10, False, [("f", w[3], 12, w[4]), ("f", w[2], 12, b"second")]), (w[0], b"u", w[2], 20, False, [])]
+                out.append(ser(1, tests, (), (False, 1), ((1, 0), (2, 0), (1, 2), (1, 1), (2, 2))[(n + field) % 5]))
+    return out
+
+
 def corpus_like():
     """each special character / fragment alone in each field, one field at a time"""
     out = []
@@ -281,10 +392,17 @@ RAW_FIXED = [b"", b"\n", b"##teamcity[a]", b"##teamcity[a]\n", b"##teamcity[a]x\
              b"##Teamcity[a]\n", b"##teamcity [a]\n", b"# #teamcity[a]\n", b"##teamcity[a]]\n", b"##teamcity[[a]\n", b"##teamcity[a] \n"]
 
 
-def gen_raw(rng):
+PREFIXES = [b"-- after runAllPostTestAction: ", b"----------  before body: ", b"text ", b".", b"#", b"##teamcity", b"x##teamcity[a]", b"##teamcity[", b"' ", b"]"]
+RAWV_FIXED = [b"x##teamcity[a]\n", b"x##teamcity[a]", b"-- t: ##teamcity[a b='c']\n", b"##teamcity[a]##teamcity[b]\n", b"x##teamcity[a]y\n", b"##teamcity##teamcity[a]\n",
+              b"#\n##teamcity[a]\n", b"a##teamcity[b c='##teamcity|[']\n", b"a##teamcity[b c='##teamcity[']\n", b"\n-- x: \n-- y: ##teamcity[a]\n\n-- z: ", b"##teamcity[##teamcity[a]\n"]
+
+
+def gen_raw(rng, anywhere=False):
     base = _w_stream(rng, gen_tests(rng) or [(b"g", b"n", b"f", 1, False, [])])
     if len(base) > 600:
         base = base[:base.rfind(b"\n", 0, 600) + 1]
+    if anywhere:
+        base = b"".join((rng.choice(PREFIXES) if l and rng.random() < 0.5 else b"") + l for l in base.splitlines(True))
     b = bytearray(base)
     for _ in range(rng.choice([0, 1, 1, 1, 2, 3])):
         if not b:
@@ -300,19 +418,31 @@ def gen_raw(rng):
         else:
             j = rng.randrange(len(b))
             b[k], b[j] = b[j], b[k]
-    return ":raw " + tb(bytes(b))
+    return (":rawv " if anywhere else ":raw ") + tb(bytes(b))
+
+
+CONS = [(0, 0), (1, 0), (2, 0), (1, 2), (1, 0), (2, 2), (1, 1), (0, 2), (1, 0), (2, 1)]
 
 
 def generate(tier, rng):
-    out = corpus_like() + [":raw " + tb(x) for x in RAW_FIXED]
-    n = 500 if tier == "quick" else 40000
+    quick = tier == "quick"
+    out = [with_con(x, CONS[k % len(CONS)]) for k, x in enumerate(corpus_like())]
+    out += [":raw " + tb(x) for x in RAW_FIXED] + [":rawv " + tb(x) for x in RAW_FIXED + RAWV_FIXED]
+    n = 400 if quick else 40000
     for k in range(n):
-        out.append(gen_run(rng, special=(k % 10 != 0), big=(tier != "quick" and k % 50 == 0)))
-    for k in range(300 if tier == "quick" else 25000):
+        out.append(with_con(gen_run(rng, special=(k % 10 != 0), big=(not quick and k % 50 == 0)), rand_con(rng)))
+    for k in range(250 if quick else 20000):
         out.append(gen_raw(rng))
-    out += ri_grid()
-    for k in range(150 if tier == "quick" else 8000):
-        out.append(gen_ri(rng, big=(tier != "quick" and k % 40 == 0)))
+    for k in range(120 if quick else 8000):
+        out.append(gen_raw(rng, anywhere=True))
+    out += [with_con(x, CONS[(k + 3) % len(CONS)]) for k, x in enumerate(ri_grid())]
+    for k in range(120 if quick else 8000):
+        out.append(with_con(gen_ri(rng, big=(not quick and k % 40 == 0)), rand_con(rng)))
+    out += long_grid()
+    for k in range(170 if quick else 6000):
+        out.append(gen_long(rng, big=(not quick and k % 4 == 0)))
+    for k in range(12 if quick else 400):
+        out.append(gen_many(rng, big=(not quick and k % 20 == 0)))
     return out
 
 
@@ -334,16 +464,56 @@ def nontrivial(s):
     return (_has(names) or _has(msgs) or len(segments(tests)) > 1 or any(t[4] for t in tests) or any(t[5] for t in tests))
 
 
+def _lines_of(s):
+    """the service-message lines the run should produce (classification only; written with the Python writer of the parser differential)"""
+    dur, filters, tests = parse_scn(s)
+    ri, passes = opts_of(s)
+    out = []
+    for g in segments(tests):
+        out.append(b"##teamcity[testSuiteStarted name='" + _w_esc(g[0][0]) + b"']")
+        for t in g:
+            if not selected(filters, t):
+                continue
+            out.append(b"##teamcity[testStarted name='" + _w_esc(t[1]) + b"']")
+            if not t[4] or ri:
+                for st in reached(t[5]):
+                    outside = st[1] != t[2] or st[2] < t[3]
+                    out.append(b"##teamcity[testFailed name='" + _w_esc(t[1]) + b"' message='" + ((b"TEST failed (" + _w_esc(t[2]) + b":%d): " % t[3]) if outside else b"")
+                               + _w_esc(st[1]) + b":%d' details='" % st[2] + _w_esc(st[3]) + b"']")
+            out.append(b"##teamcity[testFinished name='" + _w_esc(t[1]) + b"' duration='%d']" % dur)
+        out.append(b"##teamcity[testSuiteFinished name='" + _w_esc(g[0][0]) + b"']")
+    return out
+
+
+SINKS = ["printBuffer overridden (test double)", "platform seam (PlatformSpecificFPuts/Flush)", "file descriptor 1"]
+
+
 def classify(s):
     if is_raw(s):
+        anyw = s.startswith(":rawv")
         try:
-            decode_stream(unb(s.split()[1]))
-            return ["raw stream: accepted by the independent decoder"]
+            decode_stream(unb(s.split()[1]), anywhere=anyw)
+            return ["raw stream%s: accepted by the independent decoder" % (" (message-anywhere reading)" if anyw else "")]
         except ValueError:
-            return ["raw stream: rejected by the independent decoder"]
+            return ["raw stream%s: rejected by the independent decoder" % (" (message-anywhere reading)" if anyw else "")]
     tests, names, msgs = _texts(s)
     segs = segments(tests)
-    lab = ["groups=%d" % min(6, len(segs)), "tests=%s" % ("0" if not tests else "1" if len(tests) == 1 else "2-5" if len(tests) <= 5 else "6-15" if len(tests) <= 15 else "16+")]
+    sink, verb = con_of(s)
+    lab0 = ["sink=" + SINKS[min(sink, 2)], "verbosity=%d" % verb]
+    lab = lab0
+    longest = max([len(b) for b in names + msgs] + [0])
+    lab.append("longest value: " + ("0-63" if longest < 64 else "64-255" if longest < 256 else "256-1023" if longest < 1024 else "1024-5000"))
+    lines = _lines_of(s)
+    ll = max([len(l) + 1 for l in lines] + [0])
+    lab.append("longest message line: " + ("<=255 bytes" if ll <= 255 else "256-511" if ll < 512 else "512-1023" if ll < 1024 else "1024-4095" if ll < 4096 else ">=4096"))
+    for step in (64, 256, 1024):
+        if any(124 in l[k - 2:k + 2] for l in lines for k in range(step, len(l) + 1, step)):
+            lab.append("escape pair within 2 bytes of a multiple of %d of the line offset" % step)
+    if any(len(l) + 1 in (255, 256, 257, 511, 512, 513, 1023, 1024, 1025) for l in lines):
+        lab.append("message line of exactly 255-257 / 511-513 / 1023-1025 bytes")
+    nmsg = len(lines) * opts_of(s)[1]
+    lab.append("messages in the run: " + ("0-9" if nmsg < 10 else "10-49" if nmsg < 50 else "50-199" if nmsg < 200 else "200+"))
+    lab += ["groups=%d" % min(6, len(segs)), "tests=%s" % ("0" if not tests else "1" if len(tests) == 1 else "2-5" if len(tests) <= 5 else "6-15" if len(tests) <= 15 else "16+")]
     if any(t[4] for t in tests): lab.append("ignored test")
     if any(all(t[4] for t in g) for g in segs): lab.append("all-ignored group")
     if any(t[4] and t[5] for t in tests): lab.append("ignored test with a body that would fail")
@@ -393,16 +563,18 @@ ATTR = re.compile(rb" +(" + IDENT + rb")='(" + VALUE + rb")'", re.S)
 UNESC = {b"|'": b"'", b"||": b"|", b"|[": b"[", b"|]": b"]", b"|n": b"\n", b"|r": b"\r"}
 
 
-def decode_stream(data):
-    """-> [(name, [(key, value)])]; raises ValueError when the stream is not a sequence of well-formed messages and plain lines"""
+def decode_stream(data, anywhere=False):
+    """-> [(name, [(key, value)])]; raises ValueError when the stream is not a sequence of well-formed messages and plain lines.
+    anywhere (very verbose streams): a message is recognised wherever the marker first occurs in a line (text may precede it); it
+    must still end the line"""
     msgs = []
     for line in data.split(b"\n"):
         pos = line.find(b"##teamcity[")
         if pos < 0:
             continue
-        if pos != 0:
+        if pos != 0 and not anywhere:
             raise ValueError("marker in the middle of a line")
-        m = MESSAGE.fullmatch(line[11:])
+        m = MESSAGE.fullmatch(line[pos + 11:])
         if not m:
             raise ValueError("malformed message: %r" % line[:80])
         attrs = [(a.group(1), re.sub(rb"\|.", lambda x: UNESC[x.group(0)], a.group(2), flags=re.S)) for a in ATTR.finditer(m.group(2))]
@@ -438,7 +610,7 @@ def judge(s, obs):
     ri, passes = opts_of(s)
     ot = obs.split()
     try:
-        msgs = decode_stream(unb(ot[0]))
+        msgs = decode_stream(unb(ot[0]), anywhere=(con_of(s)[1] == 2))
     except ValueError as e:
         return "stream does not decode (%s)" % str(e)[:60]
     try:
@@ -555,12 +727,15 @@ def project(obs, flavour):
                 nm = unb(t[i]); k = int(t[i + 1], 16); i += 2
                 out.append((nm, [(unb(t[i + 2 * j]), unb(t[i + 2 * j + 1])) for j in range(k)])); i += 2 * k
             return "RAW " + repr(out)
-        if t and t[0] == ":raw":
+        if t and t[0] in (":raw", ":rawv"):
             try:
-                return "RAW " + repr(decode_stream(unb(t[1])))
+                return "RAW " + repr(decode_stream(unb(t[1]), anywhere=(t[0] == ":rawv")))
             except ValueError:
                 return "RAW REJECT"
-        msgs = decode_stream(unb(t[0]))
+        try:
+            msgs = decode_stream(unb(t[0]))
+        except ValueError:
+            msgs = decode_stream(unb(t[0]), anywhere=True)      # a very verbose stream (the judges know the verbosity; here only the messages are compared)
         return repr([(n, sorted((k, v) for k, v in a if k in (b"name", b"details"))) for n, a in msgs]) + " executed=" + " ".join(t[2:])
     except ValueError:
         return "REJECT"
@@ -580,6 +755,8 @@ def signature(s, obs):
     if _has(names): where.append("name/path")
     if any(t[0] == b"" for t in tests): where.append("empty group")
     if opts_of(s)[0]: where.append("run-ignored")
+    sink, verb = con_of(s)
+    if sink and max([len(l) + 1 for l in _lines_of(s)] + [0]) > 255: where.append("console path, long line")
     return "%s [%s]" % (w, ",".join(where) or "-")
 
 
@@ -588,11 +765,18 @@ def shrink(s):
         return
     dur, filters, tests = parse_scn(s)
     ri, passes = opts_of(s)
-    S = lambda d, ts, fs=(): ser(d, ts, fs, (ri, passes))
+    con = con_of(s)
+    S = lambda d, ts, fs=(): ser(d, ts, fs, (ri, passes), con)
+    if con[1]:
+        yield ser(dur, tests, filters, (ri, passes), (con[0], 0))
+    if con[0] == 2:
+        yield ser(dur, tests, filters, (ri, passes), (1, con[1]))
+    if con[0]:
+        yield ser(dur, tests, filters, (ri, passes), (0, con[1]))     # still failing below the test double: the writer itself is at fault
     if passes > 1:
-        yield ser(dur, tests, filters, (ri, 1))
+        yield ser(dur, tests, filters, (ri, 1), con)
     if ri:
-        yield ser(dur, tests, filters, (False, passes))
+        yield ser(dur, tests, filters, (False, passes), con)
     if dur:
         yield S(0, tests, filters)
     if filters:
@@ -611,7 +795,17 @@ def shrink(s):
         if len(b) > 1:
             yield b[:len(b) // 2]
             yield b[len(b) // 2:]
-        if len(b) > 0:
+        if len(b) > 24:
+            # a long value: simplest content first, then cut geometrically smaller pieces off either end (finds the length at
+            # which the failure appears in a logarithmic number of steps)
+            if b != b"a" * len(b):
+                yield b"a" * len(b)
+            k = len(b) // 4
+            while k >= 1:
+                yield b[:len(b) - k]
+                yield b[k:]
+                k //= 2
+        elif len(b) > 0:
             for k in range(len(b)):
                 yield b[:k] + b[k + 1:]
     for i, x in enumerate(filters):
